@@ -66,13 +66,16 @@ def job(j):
         out += export_all(qc, f"{nq}:{key_of(gs)}", "GateGen-full")
     for src in j.get("srcs", []):
         from qlasskit import qlassf
-        try:
-            qf = qlassf(src)
-            if type(qf).__name__ == "UnboundQlassf" or qf.circuit().num_qubits > 6:
-                continue
-            out += export_all(qf.circuit(), "src:" + src, "compiled")
-        except Exception:
-            continue
+        from ..artefact import optimizer
+        for opt in ("default", "fast"):   # fastOptimizer keeps re-assigned variables: names move between qubits
+            try:
+                qf = qlassf(src, bool_optimizer=optimizer(opt))
+                if type(qf).__name__ == "UnboundQlassf" or qf.circuit().num_qubits > (6 if opt == "default" else 7):
+                    continue
+                qc = qf.circuit()
+            except Exception:
+                continue   # not accepted / not compiled: nothing to export
+            out += export_all(qc, f"src[{opt}]:" + src, "compiled")
     return out
 
 
@@ -98,6 +101,10 @@ def run(pid):
         srcs = [s["src"] for s in progs.tests_corpus()]
         rng.shuffle(srcs)
         srcs = srcs[:60 if quick else 250]
+        # generated programs with statements (re-assigned variables, if / for): small ones only
+        gen = [s["src"] for s in progs.corpus("C13", t, seed()) if s["origin"].startswith(("TemplGen", "ProgGen-lean")) and s["src"].count("\n") >= 3]
+        rng.shuffle(gen)
+        srcs += gen[:120 if quick else 1200]
         jobs = [{"strings": strs[k:k + 25]} for k in range(0, len(strs), 25)] + [{"srcs": srcs[k:k + 6]} for k in range(0, len(srcs), 6)]
         cases = [c for r in run_jobs(job, jobs) for c in r]
         for k, c in enumerate(cases):
